@@ -61,6 +61,7 @@ type closePeerState struct {
 	lateCB   atomic.Int64 // callbacks that started after Close had returned
 	stop     chan struct{}
 	wg       sync.WaitGroup
+	closeMu  sync.Mutex
 }
 
 func RunCloses(c CloseCase) error {
@@ -105,8 +106,11 @@ func runCloses(c CloseCase) (*closeStats, error) {
 
 	serverClosed, streamClosed := false, false
 	var failure error
+	var stMu sync.Mutex // close operations run concurrently: the counters and the first failure are shared
 	timed := func(what string, f func()) {
+		stMu.Lock()
 		st.Closes++
+		stMu.Unlock()
 		stall.take()
 		t0 := time.Now()
 		done := make(chan struct{})
@@ -121,13 +125,17 @@ func runCloses(c CloseCase) (*closeStats, error) {
 				continue
 			}
 			if stall.take() > 500*time.Millisecond {
+				stMu.Lock()
 				st.Inconcl++
+				stMu.Unlock()
 				t0 = time.Now()
 				continue
 			}
+			stMu.Lock()
 			if failure == nil {
 				failure = fmt.Errorf("%s did not return within %v (read/write timeouts %v)\nlibrary goroutines:\n%s", what, c13Bound, c13Timeout, trimStacks(baseline.newLibGoroutines(0), 10))
 			}
+			stMu.Unlock()
 			return
 		}
 	}
@@ -352,17 +360,19 @@ func (h *Handler) connByID(id int) *gortsplib.ServerConn {
 }
 
 func (ps *closePeerState) close(timed func(string, func())) {
-	if ps.cl != nil {
-		cl := ps.cl
-		ps.cl = nil
+	// two concurrent close operations may name the same peer: the first one closes it
+	ps.closeMu.Lock()
+	cl, raw := ps.cl, ps.raw
+	ps.cl, ps.raw = nil, nil
+	ps.closeMu.Unlock()
+	if cl != nil {
 		timed("Client.Close ("+ps.p.Role+" over "+ps.p.Proto+", "+ps.p.Phase+")", func() {
 			cl.Close()
 			ps.closedAt.Store(time.Now().UnixNano())
 		})
 	}
-	if ps.raw != nil {
-		ps.raw.Close()
-		ps.raw = nil
+	if raw != nil {
+		raw.Close()
 	}
 }
 
